@@ -573,3 +573,22 @@ def sort_key_fields(F, fn, sort_term):
     if other:
         return None
     return fields
+
+
+def ref_target_fields(fn, operand, depth=0):
+    """field projections of the place a reference operand points to, following reborrows (`&mut *r`) and moves within the body"""
+    l = op_local(operand) if isinstance(operand, dict) and ("copy" in operand or "move" in operand) else None
+    if l is None or depth > 5:
+        return []
+    for d in fn.defs().get(l, []):
+        if d[0] != "stmt":
+            continue
+        rv = d[3]["rv"]
+        if "ref" in rv:
+            fs = [x for x in rv["ref"]["p"] if isinstance(x, dict) and "f" in x]
+            if fs:
+                return fs
+            return ref_target_fields(fn, {"copy": {"l": rv["ref"]["l"], "p": []}}, depth + 1)
+        if "use" in rv:
+            return ref_target_fields(fn, rv["use"], depth + 1)
+    return []
